@@ -31,6 +31,83 @@ pub static CTX_FFT_AVX: LazyLock<TestContext<CGGI, FFT64Avx>> = LazyLock::new(Te
 pub static CTX_NTT_REF: LazyLock<TestContext<CGGI, NTT120Ref>> = LazyLock::new(TestContext::<CGGI, NTT120Ref>::new);
 pub static CTX_NTT_AVX: LazyLock<TestContext<CGGI, NTT120Avx>> = LazyLock::new(TestContext::<CGGI, NTT120Avx>::new);
 
+/// A second key shape per backend: no GLWE-to-GLWE rank-reduction key (`ks_glwe_layout: None`), the bits are taken
+/// straight from the packed rank-2 GLWE with a rank-2 GLWE-to-LWE key.  Same secrets / seeds as the shipped context.
+pub fn alt_context<B: FullBackend>() -> TestContext<CGGI, B>
+where
+    poulpy_hal::layouts::Module<B>: poulpy_hal::api::ModuleNew<B>
+        + poulpy_bin_fhe::bdd_arithmetic::BDDKeyEncryptSk<CGGI, B>
+        + poulpy_core::layouts::GLWESecretPreparedFactory<B>
+        + poulpy_bin_fhe::blind_rotation::BlindRotationKeyPreparedFactory<CGGI, B>
+        + poulpy_bin_fhe::bdd_arithmetic::BDDKeyPreparedFactory<CGGI, B>,
+    ScratchOwned<B>: ScratchOwnedAlloc<B> + ScratchOwnedBorrow<B>,
+    poulpy_hal::layouts::Scratch<B>: poulpy_core::ScratchTakeCore<B>,
+{
+    use poulpy_bin_fhe::bdd_arithmetic::{BDDEncryptionInfos, BDDKey, BDDKeyLayout, BDDKeyPrepared};
+    use poulpy_bin_fhe::blind_rotation::BlindRotationKeyLayout;
+    use poulpy_bin_fhe::circuit_bootstrapping::CircuitBootstrappingKeyLayout;
+    use poulpy_core::layouts::{Base2K, Degree, Dnum, Dsize, GGLWEToGGSWKeyLayout, GLWEAutomorphismKeyLayout, GLWESecret, GLWEToLWEKeyLayout, LWESecret, Rank, TorusPrecision};
+    use poulpy_hal::api::ModuleNew;
+    let (n, n_lwe, rank) = (256u32, 77u32, 2u32);
+    let module: poulpy_hal::layouts::Module<B> = poulpy_hal::layouts::Module::<B>::new(n as u64);
+    let mut xs = Source::new([1u8; 32]);
+    let mut xa = Source::new([2u8; 32]);
+    let mut xe = Source::new([3u8; 32]);
+    let mut scratch: ScratchOwned<B> = ScratchOwned::alloc(1 << 22);
+    let mut sk_glwe: GLWESecret<Vec<u8>> = GLWESecret::alloc(n.into(), rank.into());
+    sk_glwe.fill_ternary_prob(0.5, &mut xs);
+    let mut sk_glwe_prep = poulpy_core::layouts::GLWESecretPreparedFactory::glwe_secret_prepared_alloc(&module, rank.into());
+    poulpy_core::layouts::GLWESecretPreparedFactory::glwe_secret_prepare(&module, &mut sk_glwe_prep, &sk_glwe);
+    let mut sk_lwe: LWESecret<Vec<u8>> = LWESecret::alloc(n_lwe.into());
+    sk_lwe.fill_binary_block(7, &mut xs);
+    let layout = BDDKeyLayout {
+        cbt_layout: CircuitBootstrappingKeyLayout {
+            brk_layout: BlindRotationKeyLayout { n_glwe: Degree(n), n_lwe: Degree(n_lwe), base2k: Base2K(12), k: TorusPrecision(52), dnum: Dnum(4), rank: Rank(rank) },
+            atk_layout: GLWEAutomorphismKeyLayout { n: Degree(n), base2k: Base2K(11), k: TorusPrecision(52), rank: Rank(rank), dnum: Dnum(4), dsize: Dsize(1) },
+            tsk_layout: GGLWEToGGSWKeyLayout { n: Degree(n), base2k: Base2K(10), k: TorusPrecision(52), rank: Rank(rank), dnum: Dnum(4), dsize: Dsize(1) },
+        },
+        ks_glwe_layout: None,
+        ks_lwe_layout: GLWEToLWEKeyLayout { n: Degree(n), base2k: Base2K(4), k: TorusPrecision(16), rank_in: Rank(rank), dnum: Dnum(3) },
+    };
+    let mut key: BDDKey<Vec<u8>, CGGI> = BDDKey::alloc_from_infos(&layout);
+    let enc = BDDEncryptionInfos::from_default_sigma(&layout).unwrap();
+    key.encrypt_sk(&module, &sk_lwe, &sk_glwe, &enc, &mut xe, &mut xa, scratch.borrow());
+    let mut prep: BDDKeyPrepared<DeviceBuf<B>, CGGI, B> = BDDKeyPrepared::alloc_from_infos(&module, &layout);
+    prep.prepare(&module, &key, scratch.borrow());
+    TestContext { bdd_key: prep, sk_glwe: sk_glwe_prep, sk_lwe, module }
+}
+
+pub static ALT_FFT_REF: LazyLock<TestContext<CGGI, FFT64Ref>> = LazyLock::new(alt_context::<FFT64Ref>);
+pub static ALT_FFT_AVX: LazyLock<TestContext<CGGI, FFT64Avx>> = LazyLock::new(alt_context::<FFT64Avx>);
+pub static ALT_NTT_REF: LazyLock<TestContext<CGGI, NTT120Ref>> = LazyLock::new(alt_context::<NTT120Ref>);
+pub static ALT_NTT_AVX: LazyLock<TestContext<CGGI, NTT120Avx>> = LazyLock::new(alt_context::<NTT120Avx>);
+
+/// `with_ctx!` with a choice of the key shape (`alt` = the context without the rank-reduction key)
+#[macro_export]
+macro_rules! with_ctx_alt {
+    ($be:expr, $alt:expr, |$c:ident| $body:expr) => {
+        match ($be, $alt) {
+            (pzv_be::Be::FftRef, true) => {
+                let $c = &*$crate::c15::ALT_FFT_REF;
+                $body
+            }
+            (pzv_be::Be::FftAvx, true) => {
+                let $c = &*$crate::c15::ALT_FFT_AVX;
+                $body
+            }
+            (pzv_be::Be::NttRef, true) => {
+                let $c = &*$crate::c15::ALT_NTT_REF;
+                $body
+            }
+            (pzv_be::Be::NttAvx, true) => {
+                let $c = &*$crate::c15::ALT_NTT_AVX;
+                $body
+            }
+            (be, false) => $crate::with_ctx!(be, |$c| $body),
+        }
+    };
+}
+
 #[macro_export]
 macro_rules! with_ctx {
     ($be:expr, |$c:ident| $body:expr) => {
@@ -231,8 +308,21 @@ where
     Verdict::pass(nt, &cl)
 }
 
+fn tag_alt(v: Verdict, alt: bool) -> Verdict {
+    match v {
+        Verdict::Pass(mut p) if alt => {
+            p.classes.push("key_without_rank_reduction".into());
+            Verdict::Pass(p)
+        }
+        Verdict::Fail { sig, detail } if alt => Verdict::Fail { sig, detail: format!("{detail}\n(BDD key without the GLWE-to-GLWE rank-reduction key: ks_glwe_layout = None, rank-2 GLWE-to-LWE key)") },
+        v => v,
+    }
+}
+
 pub fn word_test(w: &WordCase) -> Verdict {
-    with_ctx!(w.be, |c| word_run(c, w))
+    // operands prepared through circuit bootstrapping: both legal key shapes
+    let alt = w.bootstrap && w.seed & 1 == 1;
+    tag_alt(with_ctx_alt!(w.be, alt, |c| word_run(c, w)), alt)
 }
 
 // ---------------------------------------------------------------------------
@@ -351,7 +441,8 @@ where
 }
 
 pub fn bit_test(w: &BitCase) -> Verdict {
-    with_ctx!(w.be, |c| bit_run(c, w))
+    let alt = w.kind % 6 == 5 && w.seed & 1 == 1;
+    tag_alt(with_ctx_alt!(w.be, alt, |c| bit_run(c, w)), alt)
 }
 
 fn word_strategy(bootstrap_weight: f64, bes: &'static [Be]) -> BoxedStrategy<WordCase> {
